@@ -180,6 +180,11 @@ impl Substance {
                                     .expect("Already known safe")
                                     .to_parts(context);
                                 res.quantity = value.quantity;
+                                // The number is in terms of the whole
+                                // target, show its constant like a plain
+                                // conversion does.
+                                res.factor = output_show.factor.clone();
+                                res.divfactor = output_show.divfactor.clone();
                                 res
                             } else {
                                 output_show
